@@ -84,3 +84,10 @@ Definition py_flat_addrs (l : list net) : list (Z * Z) := flat_map py_net_addrs 
 (* ---- IPAddress.format (unit pysrc_ipg_gen.v) ---- *)
 (* the `dialect` argument: None | a dialect class with a word_fmt attribute, as the pair (word_fmt, compact) | any other object *)
 Inductive darg6 := D6None | D6Class (c : string * bool) | D6Other.
+
+(* ---- netaddr/ip/iana.py, filling the dictionaries (unit pysrc_ianab_gen.v) ---- *)
+(* s.strip() (Base/PyStr.v strip: str.isspace on latin-1) ; a, b = <list> (ValueError unless two items) ; d[k] on a dict of text (KeyError) *)
+Definition py_strip (s : string) : string := PyStr.strip s.
+Definition py_unpack2g {A} (l : list A) : outcome (A * A) := match l with [a; b] => Ok (a, b) | _ => Raise ValueError end.
+Fixpoint py_srec_get (d : list (string * string)) (k : string) : outcome string :=
+  match d with [] => Raise KeyError | (k', v) :: t => if String.eqb k' k then Ok v else py_srec_get t k end.
